@@ -121,7 +121,9 @@ def mlstring_width_dependence(fail):
     around its re-indentation, so the chosen wrapping of what follows the literal depends on the limit
     even when everything fits (same root as F6)"""
     fam = fail.get("ml_families") or {}
-    return fail.get("kind") == "width_is_style_switch" and "'''" in _text(fail) and fam.get("in_family_with_children", 0) > 0
+    # (the same stale child-line measures can also leave a line over the limit or add a line: all three clauses)
+    return (fail.get("kind") in ("width_is_style_switch", "fits_not_monotone", "wider_more_lines") and "'''" in _text(fail)
+            and fam.get("in_family_with_children", 0) > 0)
 
 
 def lone_cr_after_line_comment(fail):
